@@ -85,9 +85,37 @@ static bool check_seed(uint64_t seed)
     return true;
 }
 
+/* the splitmix64 output function is a bijection: undo it (multiplicative inverses mod 2^64, xorshifts unwound) */
+static uint64_t unxorshift(uint64_t z, int s)
+{
+    uint64_t r = z;
+    for (int k = s; k < 64; k += s) {
+        r = z ^ (r >> s);
+    }
+    return r;
+}
+
+static uint64_t mulinv(uint64_t c)
+{
+    uint64_t x = c; /* Newton: correct to 3 bits, doubles each round */
+    for (int k = 0; k < 6; k++) {
+        x *= 2 - c * x;
+    }
+    return x;
+}
+
+static uint64_t splitmix_state_for_output(uint64_t v)
+{
+    uint64_t z = unxorshift(v, 31);
+    z *= mulinv(0x94d049bb133111ebull);
+    z = unxorshift(z, 27);
+    z *= mulinv(0xbf58476d1ce4e5b9ull);
+    return unxorshift(z, 30);
+}
+
 static void run_identity(void)
 {
-    const int blk = vx_choose_free(66, "seed-block");
+    const int blk = vx_choose_free(67, "seed-block");
     uint64_t acc = 0;
     if (blk < 64) {
         for (uint64_t s = (uint64_t)blk * 1024; s < (uint64_t)(blk + 1) * 1024; s++) {
@@ -105,6 +133,29 @@ static void run_identity(void)
             }
             acc = vx_mix(acc, cmb_random_sfc64());
             vx_state(1ull << b);
+        }
+    }
+    else if (blk == 66) {
+        /* seeds chosen by what they do to the bootstrap: each of the four words that splitmix64 hands to sfc64 (a, b, c
+         * and the counter d) is made 0, 1, 2^63, 2^64-1 in turn (a word of 0 comes from a splitmix state of 0) */
+        static const uint64_t V[] = { 0, 1, 0x8000000000000000ull, UINT64_MAX };
+        for (unsigned w = 1; w <= 4; w++) {
+            for (unsigned k = 0; k < 4; k++) {
+                const uint64_t seed = splitmix_state_for_output(V[k]) - w * 0x9e3779b97f4a7c15ull;
+                uint64_t st = seed, out = 0;
+                for (unsigned i = 0; i < w; i++) {
+                    out = ref_splitmix(&st);
+                }
+                if (out != V[k]) {
+                    vx_violation("harness:splitmix-inverse", "the harness's own inverse of splitmix64 is wrong");
+                    return;
+                }
+                if (!check_seed(seed)) {
+                    return;
+                }
+                acc = vx_mix(acc, cmb_random_sfc64());
+                vx_state(seed);
+            }
         }
     }
     else {
